@@ -17,7 +17,7 @@ float operation on the path is a single correctly rounded division of exact inte
 namespace Coba.C18
 
 inductive Err
-  | indexError | keyError | zeroDivision | typeError | assertion | coba
+  | indexError | keyError | zeroDivision | typeError | assertion | coba | statistics
 deriving Repr, DecidableEq
 
 /-! ## `moving_average(values, span, weights)` -/
@@ -431,7 +431,8 @@ def restrictTables (r : Result) (ints : List IRow) : Result :=
 
 /-- pairing step of the spec: the rows of the complete groups -/
 def groupPIntsS (ints : List IRow) (ix : List Idx) : List IRow :=
-  ints.filter (fun row => (keptTriplesS ix).contains row.triple)
+  let keep := keptTriplesS ix          -- (named so that the compiled driver computes it once, not once per row)
+  ints.filter (fun row => keep.contains row.triple)
 
 /-- length step of the spec, on the runs: drop the evaluations shorter than `n`, cut the rest to `n` -/
 def globalNIntsS (ints : List IRow) (n : NSpec) : List IRow :=
@@ -681,6 +682,212 @@ def rawLearnersS (r : Result) (x : XSpec) (lc : List Col) (pc : Option (List Col
     | .error err => .error err
     | .ok fin => if fin.lrns.isEmpty then .error .coba else groupedYsS fin lc x span
 
+/-! ## finding C18-F3: `where_fin(n=k,l,p)` pairs first and drops short evaluations afterwards -/
+
+/-- `_filter_fin` with `fixes/C18-length-drop-before-pairing.diff`: for an integer `n` the length step runs
+*before* the pairing step (for `'min'` and `None` nothing changes) -/
+def filterFinD (r : Result) (n : Option NSpec) (lp : Option (List Col × List Col)) : Except Err Result :=
+  match n with
+  | some (.k (m + 1)) =>
+    match globalN r (.k (m + 1)) with
+    | .error x => .error x
+    | .ok r1 =>
+      match lp with
+      | none => .ok r1
+      | some (lc, pc) => groupP true r1 lc pc
+  | _ => filterFin true r n lp
+
+/-- the documented contract ("a Result where an `l` exists for every `p` and all `p` have `n` interactions"):
+first the evaluations shorter than `n` go, then exactly the complete pairing groups of what is left stay -/
+def whereFinJ (r : Result) (n : Option NSpec) (lp : Option (List Col × List Col)) : Except Err Result :=
+  match n with
+  | some (.k (m + 1)) =>
+    match whereFinS r (some (.k (m + 1))) none with
+    | .error x => .error x
+    | .ok r1 => whereFinS r1 none lp
+  | _ => whereFinS r n lp
+
+/-- every pairing group of `r` has exactly one evaluation for every level that occurs in `r` -/
+def pairingComplete (r : Result) (lc pc : List Col) : Except Err Bool :=
+  match mkIndexes r lc pc ((runs r.ints).map (·.1)) with
+  | .error x => .error x
+  | .ok ix => .ok (ix.all (fun i => completeGroup ix i.p))
+
+/-! ## `where_best` / `filter_best` -/
+
+/-- one evaluation as `filter_best` sees it: its `p`-, `l`- and `full_l`-keys and the mean of its first `n` rewards -/
+structure BEnt where
+  p : Key
+  l : Key
+  f : Key
+  t : Triple
+  s : Rat
+deriving Repr, DecidableEq
+
+/-- `islice(Y, n)` -/
+def takeN {α} (n : Option Nat) (l : List α) : List α :=
+  match n with
+  | none => l
+  | some k => l.take k
+
+/-- `_grouped_ys(p,l,full_l,full_id,y=y,func='list',card='S')` followed by `mean(islice(Y,n))` per evaluation -/
+def mkBest (r : Result) (lc pc fc : List Col) (n : Option Nat) : List (Triple × List IRow) → Except Err (List BEnt)
+  | [] => .ok []
+  | g :: gs =>
+    match lookup r.envs g.1.1, lookup r.lrns g.1.2.1, lookup r.evals g.1.2.2 with
+    | .ok e, .ok l, .ok v =>
+      match keyOf e l v g.1 pc, keyOf e l v g.1 lc, keyOf e l v g.1 fc with
+      | .ok pk, .ok lk, .ok fk =>
+        let ys := (takeN n g.2).map (fun (row : IRow) => toRat row.y)
+        if ys.isEmpty then .error .statistics          -- `fmean([])`
+        else match mkBest r lc pc fc n gs with
+          | .ok rest => .ok (⟨pk, lk, fk, g.1, sumL ys / (ys.length : Rat)⟩ :: rest)
+          | .error x => .error x
+      | _, _, _ => .error .keyError
+    | _, _, _ => .error .keyError
+
+/-- Python's `<` on tuples of (order-preserving codes of) values -/
+def klt : Key → Key → Bool
+  | [], [] => false
+  | [], _ :: _ => true
+  | _ :: _, [] => false
+  | a :: as, b :: bs => a < b || (a == b && klt as bs)
+
+def insertK (k : Key) : List Key → List Key
+  | [] => [k]
+  | x :: xs => if klt x k then x :: insertK k xs else k :: x :: xs
+
+/-- `sorted` on keys -/
+def sortK : List Key → List Key
+  | [] => []
+  | x :: xs => insertK x (sortK xs)
+
+/-- the `full_l` levels of one `(p,l)` cell in ascending order (the order in which the sorted `groups` are walked),
+each with the mean of its evaluations' means and their id triples -/
+def levelScores (cell : List BEnt) : List (Key × Rat × List Triple) :=
+  (sortK (dedup (cell.map (·.f)))).map (fun f =>
+    let es := cell.filter (fun e => e.f = f)
+    (f, sumL (es.map (·.s)) / (es.length : Rat), es.map (·.t)))
+
+/-- the inner loop of `filter_best`: `max_val, k, d = -inf, [], []; for …: if mean_val < max_val: d += ids else: max_val = mean_val; d += k; k = ids`
+(`maxv = none` is `-inf`) -/
+def pickBest : List (Key × Rat × List Triple) → Option Rat → List Triple → List Triple → List Triple × List Triple
+  | [], _, k, d => (k, d)
+  | c :: rest, maxv, k, d =>
+    if (match maxv with | some m => decide (c.2.1 < m) | none => false) then pickBest rest maxv k (d ++ c.2.2)
+    else pickBest rest (some c.2.1) c.2.2 (d ++ k)
+
+/-- the evaluations of the `(p,l)` cell of `e` -/
+def cellOfEnt (es : List BEnt) (e : BEnt) : List BEnt := es.filter (fun e' => e'.p = e.p ∧ e'.l = e.l)
+
+def keptByBest (es : List BEnt) : List Triple :=
+  (es.filter (fun e => (pickBest (levelScores (cellOfEnt es e)) none [] []).1.contains e.t)).map (·.t)
+
+def droppedByBest (es : List BEnt) : List Triple :=
+  (es.filter (fun e => !(pickBest (levelScores (cellOfEnt es e)) none [] []).1.contains e.t)).map (·.t)
+
+/-- `Result.filter_best(l,p,y,n,full_l,full_p)` (= `where_best`) -/
+def filterBest (r : Result) (lc pc : List Col) (n : Option Nat) (fl fp : List Col) : Except Err Result :=
+  match filterFin true r none (some (fl, fp)) with
+  | .error x => .error x
+  | .ok fin =>
+    match mkBest fin lc pc fl n (runs fin.ints) with
+    | .error x => .error x
+    | .ok es =>
+      match removeRows fin.ints (droppedByBest es) 0 with
+      | .error x => .error x
+      | .ok ints =>
+        .ok { envs := filterTable fin.envs ((keptByBest es).map (·.1)),
+              lrns := filterTable fin.lrns ((keptByBest es).map (·.2.1)),
+              evals := filterTable fin.evals ((keptByBest es).map (·.2.2)),
+              ints := ints }
+
+/-! ### spec of `where_best` -/
+
+/-- a candidate level whose mean is not exceeded by any other level of the cell -/
+def isMaxScore (cands : List (Key × Rat × List Triple)) (c : Key × Rat × List Triple) : Bool :=
+  cands.all (fun c' => decide (c'.2.1 ≤ c.2.1))
+
+/-- the level `where_best` must pick in a cell: one with the best mean; among several the last in ascending order -/
+def bestLevelS (cands : List (Key × Rat × List Triple)) : Option (Key × Rat × List Triple) :=
+  (cands.filter (isMaxScore cands)).getLast?
+
+def keptByBestS (es : List BEnt) : List Triple :=
+  (es.filter (fun e => (bestLevelS (levelScores (cellOfEnt es e))).map (·.1) = some e.f)).map (·.t)
+
+/-- `where_best(l,p,y,n,full_l,full_p)` as documented: among the complete `full_p` groups (spec of `where_fin`),
+in every `(p,l)` cell keep exactly the evaluations of the `full_l` level with the best mean — every kept row as it is,
+parameter rows restricted to the ones still referenced -/
+def whereBestS (r : Result) (lc pc : List Col) (n : Option Nat) (fl fp : List Col) : Except Err Result :=
+  match whereFinS r none (some (fl, fp)) with
+  | .error x => .error x
+  | .ok fin =>
+    match mkBest fin lc pc fl n (runs fin.ints) with
+    | .error x => .error x
+    | .ok es =>
+      let keep := keptByBestS es
+      .ok (restrictTables fin (fin.ints.filter (fun row => keep.contains row.triple)))
+
+/-! ## `raw_contrast` -/
+
+/-- `D[k] = v` on an insertion-ordered dict (`card='S'`): a later value replaces an earlier one in place -/
+def insertS (D : List ((Key × Key) × Rat)) (k : Key × Key) (v : Rat) : List ((Key × Key) × Rat) :=
+  match D with
+  | [] => [(k, v)]
+  | (k', v') :: rest => if k' = k then (k', v) :: rest else (k', v') :: insertS rest k v
+
+/-- `D.update(zip(keys, values))` over all evaluations -/
+def lastWins : List ((Key × Key) × Rat) → List ((Key × Key) × Rat) → List ((Key × Key) × Rat)
+  | D, [] => D
+  | D, (k, v) :: es => lastWins (insertS D k v) es
+
+/-- `for l_,v_ in wheres: subplot = subplot.where(**{l_:v_})` -/
+def applySel (r : Result) : List (Tbl × Option Nat × Int) → Result
+  | [] => r
+  | (tb, j, v) :: ss => applySel (whereTbl r tb j [v]) ss
+
+/-- `subplot._grouped_ys(p, x, y=y, card='S', span=span)` for one side of the contrast; `vals` says how the value of
+one evaluation is computed (`allEntries` = the code, `allEntriesS` = direct averages) -/
+def sideVals (vals : Result → List Col → XSpec → Option Nat → List (Triple × List IRow) → Except Err (List ((Key × Key) × Rat)))
+    (r : Result) (sel : List (Tbl × Option Nat × Int)) (pc : List Col) (x : XSpec) (span : Option Nat) :
+    Except Err (List ((Key × Key) × Rat)) :=
+  match vals (applySel r sel) pc x span (runs (applySel r sel).ints) with
+  | .error e => .error e
+  | .ok es => .ok (lastWins [] es)
+
+/-- the entries of the two sides under one pairing value: `zip` when `x` is `'index'` (x taken from the first side),
+`product` otherwise (x = `makex(x1,x2)`, represented by the pair) -/
+def pairUp (isIndex : Bool) (a b : List ((Key × Key) × Rat)) : List ((Key × Key) × (Rat × Rat)) :=
+  if isIndex then List.zipWith (fun u w => ((u.1.2, u.1.2), (u.2, w.2))) a b
+  else a.flatMap (fun u => b.map (fun w => ((u.1.2, w.1.2), (u.2, w.2))))
+
+/-- `XY[x].append(pair)`: pairs grouped by x, x in order of first occurrence -/
+def groupPairs (ps : List ((Key × Key) × (Rat × Rat))) : List ((Key × Key) × List (Rat × Rat)) :=
+  (dedup (ps.map (·.1))).map (fun k => (k, (ps.filter (fun e => e.1 = k)).map (·.2)))
+
+/-- the pipeline of `raw_contrast(l1,l2,x,y,l,p,span)` after the two label selections; the pairing values common to
+both sides are walked in the order of the first side (the code walks a `set`: the order of the pairs under one x
+is unspecified) -/
+def rawContrastWith (vals : Result → List Col → XSpec → Option Nat → List (Triple × List IRow) → Except Err (List ((Key × Key) × Rat)))
+    (r : Result) (sel1 sel2 : List (Tbl × Option Nat × Int)) (pc : List Col) (x : XSpec) (span : Option Nat) :
+    Except Err (List ((Key × Key) × List (Rat × Rat))) :=
+  if sel1 = sel2 then .error .coba            -- "A value cannot be in both `l1` and `l2`"
+  else if r.ints.isEmpty then .error .coba    -- `_plottable`
+  else
+    match sideVals vals r sel1 pc x span, sideVals vals r sel2 pc x span with
+    | .ok L1, .ok L2 =>
+      let ks := (dedup (L1.map (·.1.1))).filter (fun k => (L2.map (·.1.1)).contains k)
+      let pairs := ks.flatMap (fun k => pairUp (x = .index) (L1.filter (fun e => e.1.1 = k)) (L2.filter (fun e => e.1.1 = k)))
+      if pairs.isEmpty then .error .coba      -- "We were unable to create any pairings to contrast"
+      else .ok (groupPairs pairs)
+    | .error e, _ => .error e
+    | _, .error e => .error e
+
+/-- the code: values from `moving_average` / `mean` as `_grouped_ys` computes them -/
+def rawContrast := rawContrastWith allEntries
+/-- the specification: the same pairing of *directly computed* averages -/
+def rawContrastS := rawContrastWith allEntriesS
+
 /-! ## chains of `where_fin` / `where` -/
 
 /-- a well-formed Result: sorted interaction table (`Result.__init__` indexes it), primary keys, per-evaluation
@@ -692,6 +899,7 @@ instance (r : Result) : Decidable (WF r) := by unfold WF; infer_instance
 inductive Step
   | fin (n : Option NSpec) (lp : Option (List Col × List Col))
   | wher (tb : Tbl) (j : Option Nat) (vals : List Int)
+  | best (lc pc : List Col) (n : Option Nat) (fl fp : List Col)
 
 /-- a chain `r.where_fin(…).where(…).where_fin(…)…` on the model -/
 def runChain (fixed : Bool) : List Step → Result → Except Err Result
@@ -701,6 +909,10 @@ def runChain (fixed : Bool) : List Step → Result → Except Err Result
     | .ok r' => runChain fixed ss r'
     | .error e => .error e
   | .wher tb j vals :: ss, r => runChain fixed ss (whereTbl r tb j vals)
+  | .best lc pc n fl fp :: ss, r =>
+    match filterBest r lc pc n fl fp with
+    | .ok r' => runChain fixed ss r'
+    | .error e => .error e
 
 /-- the same chain with every `where_fin` replaced by its specification -/
 def runChainS : List Step → Result → Except Err Result
@@ -710,5 +922,9 @@ def runChainS : List Step → Result → Except Err Result
     | .ok r' => runChainS ss r'
     | .error e => .error e
   | .wher tb j vals :: ss, r => runChainS ss (whereTbl r tb j vals)
+  | .best lc pc n fl fp :: ss, r =>
+    match whereBestS r lc pc n fl fp with
+    | .ok r' => runChainS ss r'
+    | .error e => .error e
 
 end Coba.C18
